@@ -14,8 +14,15 @@
  *   CALL <idx> <MPI function> <api seq> <count> <zero|data> <ret addr> <ret addr> ...
  *   INJECT <idx> <class>
  *   API <seq> <label> <return code> [request statuses ...]
- *   HANG <seq> <label>           (watchdog: this rank was still inside / before API <seq>)
+ *   HANG <seq> <label>           (watchdog: this rank was still inside API <seq>; label "sync" = it had
+ *                                 returned from API <seq> and waited for the other ranks to return too)
+ *   STOP <seq>                   (a fault fired during API <seq> on some rank: every rank stops here)
  *   DONE
+ *
+ * After every API call the ranks agree (MPI_Allreduce on a private communicator) whether the fault
+ * has fired; if so the program stops.  So a rank that is still blocked INSIDE the call in which the
+ * fault fired -- the only blocking the property is about -- shows up as HANG <that seq>, and later
+ * calls, whose behaviour after a reported error is the application's business, are not executed.
  */
 #include <stdio.h>
 #include <stdlib.h>
@@ -32,6 +39,23 @@ static int g_ncalls = 0, g_fired = 0;
 static int g_seq = 0;
 static const char *g_label = "-";
 static FILE *g_log = NULL;
+
+static MPI_Comm g_hc = MPI_COMM_NULL;
+
+static void sync_point(void)
+{
+    int mine = g_fired, any = 0;
+    const char *save = g_label;
+    g_label = "sync";
+    PMPI_Allreduce(&mine, &any, 1, MPI_INT, MPI_MAX, g_hc);
+    g_label = save;
+    if (any) {
+        fprintf(g_log, "STOP %d\nDONE\n", g_seq);
+        fflush(g_log);
+        PMPI_Barrier(g_hc);
+        _exit(0);
+    }
+}
 
 static void on_alarm(int sig)
 {
@@ -79,7 +103,7 @@ int MPI_File_read_all(MPI_File fh, void *buf, int count, MPI_Datatype t, MPI_Sta
 
 /* ---- API call recording -------------------------------------------------------------------- */
 #define A(label, call) do { g_seq++; g_label = (label); rc = (call); \
-        fprintf(g_log, "API %d %s %d\n", g_seq, (label), rc); fflush(g_log); } while (0)
+        fprintf(g_log, "API %d %s %d\n", g_seq, (label), rc); fflush(g_log); sync_point(); } while (0)
 
 static void api_wait(const char *label, int ncid, int n, int *reqs, int coll)
 {
@@ -90,6 +114,7 @@ static void api_wait(const char *label, int ncid, int n, int *reqs, int coll)
     fprintf(g_log, "API %d %s %d", g_seq, label, rc);
     for (i = 0; i < n; i++) fprintf(g_log, " %d", st[i]);
     fprintf(g_log, "\n"); fflush(g_log);
+    sync_point();
 }
 
 #define NX 8
@@ -246,19 +271,8 @@ static void scenario(const char *name, const char *path)
             slab(start, count);
             A("iget_vara", ncmpi_iget_vara_int(ncid, fix, start, count, g_rbuf, &reqs[n])); n++;
         }
-        api_wait(indep ? "wait" : (mixed ? "wait_all_mixed" : "wait_all"), ncid, n, reqs, !indep);
+        api_wait(indep ? "wait_mixed" : (mixed ? "wait_all_mixed" : "wait_all"), ncid, n, reqs, !indep);
         if (indep) A("end_indep", ncmpi_end_indep_data(ncid));
-        A("close", ncmpi_close(ncid));
-    }
-    else if (!strcmp(name, "wait_two_phases_indep")) {
-        /* independent wait with a put and a get: write phase then read phase */
-        create(path, &ncid, info); def_schema(ncid, &fix, &recv, &sca, 0);
-        A("enddef", ncmpi_enddef(ncid));
-        A("begin_indep", ncmpi_begin_indep_data(ncid));
-        slab(start, count);
-        A("iput_vara", ncmpi_iput_vara_int(ncid, fix, start, count, g_buf, &reqs[0]));
-        A("iget_vara", ncmpi_iget_vara_int(ncid, fix, start, count, g_rbuf, &reqs[1]));
-        api_wait("wait_mixed", ncid, 2, reqs, 0);
         A("close", ncmpi_close(ncid));
     }
     else if (!strcmp(name, "data_mode_meta")) {
@@ -285,6 +299,30 @@ static void scenario(const char *name, const char *path)
             A("close", ncmpi_close(ncid));
         }
     }
+    else if (!strcmp(name, "open_bighdr")) {
+        /* CDF-2 header laid out so that the first dimid of variable "v" starts exactly at the end of the
+         * first header read chunk (262144 bytes): the second hdr_fetch happens inside the dimid loop of
+         * hdr_get_NC_var.  magic 4 + numrecs 4 + dim_list 20 + gatt_list 24+L + var_list: tag/nelems 8,
+         * name 8, ndims 4  ->  dimid at 72 + L = 262144 */
+        int d, v, nd, nv, na, ud;
+        size_t L = 262144 - 72;
+        char *big = (char*) malloc(L);
+        memset(big, 'y', L);
+        g_seq++; g_label = "create";
+        rc = ncmpi_create(MPI_COMM_WORLD, path, NC_CLOBBER | NC_64BIT_OFFSET, info, &ncid);
+        fprintf(g_log, "API %d create %d\n", g_seq, rc); fflush(g_log); sync_point();
+        A("def_dim", ncmpi_def_dim(ncid, "d", 4, &d));
+        A("put_att", ncmpi_put_att_text(ncid, NC_GLOBAL, "a", L, big));
+        A("def_var", ncmpi_def_var(ncid, "v", NC_INT, 1, &d, &v));
+        A("enddef", ncmpi_enddef(ncid));
+        A("close", ncmpi_close(ncid));
+        A("open", ncmpi_open(MPI_COMM_WORLD, path, NC_NOWRITE, info, &ncid));
+        if (rc == NC_NOERR) {
+            A("inq", ncmpi_inq(ncid, &nd, &nv, &na, &ud));
+            A("close", ncmpi_close(ncid));
+        }
+        free(big);
+    }
     else if (!strcmp(name, "zero_req")) {
         /* collective calls where the last rank has nothing to transfer */
         create(path, &ncid, info); def_schema(ncid, &fix, &recv, &sca, 0);
@@ -293,12 +331,8 @@ static void scenario(const char *name, const char *path)
         if (g_rank == g_nprocs - 1) count[0] = 0;
         A("put_vara_all", ncmpi_put_vara_int_all(ncid, fix, start, count, g_buf));
         A("get_vara_all", ncmpi_get_vara_int_all(ncid, fix, start, count, g_rbuf));
-        if (g_rank == g_nprocs - 1) {
-            api_wait("wait_all", ncid, 0, reqs, 1);
-        } else {
-            A("iput_vara", ncmpi_iput_vara_int(ncid, fix, start, count, g_buf, &reqs[0]));
-            api_wait("wait_all", ncid, 1, reqs, 1);
-        }
+        A("iput_vara", ncmpi_iput_vara_int(ncid, fix, start, count, g_buf, &reqs[0]));
+        api_wait("wait_all", ncid, 1, reqs, 1);
         A("close", ncmpi_close(ncid));
     }
     else if (!strcmp(name, "hcoll_header")) {
@@ -328,6 +362,7 @@ int main(int argc, char **argv)
     MPI_Comm_size(MPI_COMM_WORLD, &g_nprocs);
     MPI_Comm_set_errhandler(MPI_COMM_WORLD, MPI_ERRORS_RETURN);
     MPI_File_set_errhandler(MPI_FILE_NULL, MPI_ERRORS_RETURN);
+    MPI_Comm_dup(MPI_COMM_WORLD, &g_hc);
     if (argc < 7) { fprintf(stderr, "usage\n"); MPI_Finalize(); return 2; }
     g_target_rank = atoi(argv[4]); g_target_k = atoi(argv[5]); g_class = atoi(argv[6]);
     snprintf(fn, sizeof fn, "%s.%d", argv[3], g_rank);
